@@ -72,7 +72,7 @@ pub fn run() -> i32 {
     let mut ctx = Ctx::new("C01", "exploration");
     let seed = ctx.seed;
     let lens = lens(ctx.tier);
-    ctx.rule = format!("full product: every encrypt form ({} forms: classic combined/detached/in-place, precomputed, sealed, object API with stack and Vec containers) x key/nonce alphabet (5x5 for secret-key forms, 4 pairs for public-key forms) x every message length ({} lengths) x 4 content classes, bytes compared with libsodium; every open form ({} forms) on the libsodium-made ciphertext of every cell must return the message; libsodium must open dryoc's output; sealed boxes additionally with the real RNG, cross-opened both ways; heap container forms (nightly build) on the reduced grid lengths 0..=130 + {{1023..1025, 4095..4097}} x 1 key set x 2 contents, locked container forms (several mlock calls each) on lengths {{0,1,15,16,17,63,64,65,128,1024,4097}}; non-trivial = cell executed in both implementations (all)", enc_all().len(), lens.len(), open_all().len());
+    ctx.rule = format!("full product: every encrypt form ({} forms: classic combined/detached/in-place, precomputed, sealed, object API with stack and Vec containers) x key/nonce alphabet (5x5 for secret-key forms, 4 pairs for public-key forms) x every message length ({} lengths) x 4 content classes, bytes compared with libsodium; every open form ({} forms) on the libsodium-made ciphertext of every cell must return the message; libsodium must open dryoc's output; sealed boxes additionally with the real RNG, cross-opened both ways; all 13 824 sequences of 3 public-key operations over 6 operations x 2 local keys x 2 peers, each on a fresh thread, every result checked against libsodium; heap container forms (nightly build) on the reduced grid lengths 0..=130 + {{1023..1025, 4095..4097}} x 1 key set x 2 contents, locked container forms (several mlock calls each) on lengths {{0,1,15,16,17,63,64,65,128,1024,4097}}; non-trivial = cell executed in both implementations (all)", enc_all().len(), lens.len(), open_all().len());
     ctx.assume("libsodium 1.0.18 is the reference; key/nonce/message VALUES outside the stated alphabets are not covered, lengths and forms are covered completely up to the bound");
     ctx.assume("sealed-box ephemeral key is pinned through RNG seam H3 for the exact-bytes comparison");
 
@@ -214,6 +214,91 @@ pub fn run() -> i32 {
         }
     });
     ctx.absorb("cross-open", st);
+    // key sequences: every sequence of 3 public-key operations over 2 local key pairs x 2 peers x
+    // 6 operations, executed on one thread, each result checked against libsodium — exposes state
+    // carried from one call to the next (a cached shared key, a reused scratch buffer)
+    {
+        use dryoc::classic::crypto_box::*;
+        let kp: Vec<([u8; 32], [u8; 32])> = (0..4).map(|i| sodium::box_seed_keypair(&karr(seed ^ 0x5e9, i + 1))).collect();
+        let nonce: [u8; 24] = karr(seed, 3);
+        let msg = cval(seed, 3, 33);
+        // action = (op 0..6, local 0..2, peer 2..4)
+        let do_op = |op: usize, l: usize, p: usize| -> Result<(), String> {
+            let (lpk, lsk) = kp[l];
+            let (ppk, psk) = kp[p];
+            match op {
+                0 => {
+                    let mut c = vec![0u8; msg.len() + 16];
+                    crypto_box_easy(&mut c, &msg, &nonce, &ppk, &lsk).map_err(|e| format!("{:?}", e))?;
+                    if Some(c) != sodium::box_easy(&msg, &nonce, &ppk, &lsk) { return Err("crypto_box_easy bytes differ from libsodium".into()); }
+                }
+                1 => {
+                    let c = sodium::box_easy(&msg, &nonce, &lpk, &psk).unwrap();
+                    let mut m = vec![0u8; msg.len()];
+                    crypto_box_open_easy(&mut m, &c, &nonce, &ppk, &lsk).map_err(|_| "crypto_box_open_easy rejected a genuine libsodium box".to_string())?;
+                    if m != msg { return Err("crypto_box_open_easy returned a wrong message".into()); }
+                }
+                2 => {
+                    let mut c = vec![0u8; msg.len() + 48];
+                    crypto_box_seal(&mut c, &msg, &ppk).map_err(|e| format!("{:?}", e))?;
+                    if sodium::box_seal_open(&c, &ppk, &psk).as_deref() != Some(&msg[..]) { return Err("libsodium cannot open a dryoc sealed box".into()); }
+                }
+                3 => {
+                    let c = sodium::box_seal(&msg, &lpk);
+                    let mut m = vec![0u8; msg.len()];
+                    crypto_box_seal_open(&mut m, &c, &lpk, &lsk).map_err(|_| "crypto_box_seal_open rejected a genuine libsodium sealed box".to_string())?;
+                    if m != msg { return Err("crypto_box_seal_open returned a wrong message".into()); }
+                }
+                4 => {
+                    let b = dryoc::dryocbox::DryocBox::encrypt_to_vecbox(&msg, &dryoc::dryocbox::Nonce::from(&nonce), &dryoc::dryocbox::PublicKey::from(&ppk), &lsk).map_err(|e| format!("{:?}", e))?;
+                    if Some(b.to_vec()) != sodium::box_easy(&msg, &nonce, &ppk, &lsk) { return Err("DryocBox::encrypt bytes differ from libsodium".into()); }
+                }
+                _ => {
+                    let mut d = msg.clone();
+                    d.resize(msg.len() + 16, 0);
+                    crypto_box_easy_inplace(&mut d, &nonce, &ppk, &lsk).map_err(|e| format!("{:?}", e))?;
+                    if Some(d) != sodium::box_easy(&msg, &nonce, &ppk, &lsk) { return Err("crypto_box_easy_inplace bytes differ from libsodium".into()); }
+                }
+            }
+            Ok(())
+        };
+        let opn = ["box_easy", "box_open_easy", "box_seal", "box_seal_open", "DryocBox::encrypt", "box_easy_inplace"];
+        let acts: Vec<(usize, usize, usize)> = (0..6).flat_map(|o| (0..2).flat_map(move |l| (2..4).map(move |p| (o, l, p)))).collect();
+        let units: Vec<usize> = (0..acts.len()).collect();
+        let st = par_units(&units, |&a0, st| {
+            // run on a fresh OS thread so that thread-local state starts empty for every sequence
+            for &a1 in &units {
+                for &a2 in &units {
+                    let seq = [acts[a0], acts[a1], acts[a2]];
+                    let r = std::thread::scope(|sc| {
+                        sc.spawn(|| {
+                            for (i, &(o, l, p)) in seq.iter().enumerate() {
+                                if let Err(e) = guarded(std::panic::AssertUnwindSafe(|| do_op(o, l, p))).unwrap_or_else(|p| Err(format!("panic: {}", p))) {
+                                    return Some((i, e));
+                                }
+                            }
+                            None
+                        })
+                        .join()
+                        .unwrap()
+                    });
+                    st.eval(&(3u8, a0, a1, a2), true, if r.is_none() { "key-sequence-ok" } else { "key-sequence-wrong" });
+                    if let Some((i, e)) = r {
+                        st.fail(Fail {
+                            check: "C01.aead".into(),
+                            signature: format!("C01/key-sequence/{}", opn[seq[i].0]),
+                            what: format!("sequence {:?} (op, local key, peer key): step {} ({}) — {}", seq.iter().map(|x| (opn[x.0], x.1, x.2)).collect::<Vec<_>>(), i + 1, opn[seq[i].0], e),
+                            case: json!({"kind": "sequence", "note": "re-run bin/check C01 to reproduce", "sequence": seq.iter().map(|x| json!([opn[x.0], x.1, x.2])).collect::<Vec<_>>(), "form": "box_easy", "keys": Keys::make(seed, 3, 2).json(), "msg": ""}),
+                        });
+                    }
+                }
+            }
+            if a0 == 5 {
+                st.sample(json!({"key_sequence_example": [["box_seal", 0, 2], ["box_seal", 1, 2], ["box_open_easy", 0, 3]], "alphabet": {"operations": opn, "local_keys": 2, "peer_keys": 2}, "length": 3}));
+            }
+        });
+        ctx.absorb("key-sequences", st);
+    }
     ctx.require_outcome("enc==libsodium");
     ctx.require_outcome("open-ok");
     ctx.require_outcome("seal-real-rng-cross-open");
